@@ -30,6 +30,29 @@ def harness(key: str):
     return deco
 
 
+# Conformance batteries: when the deductive step cannot decide a function (its body left the verified subset), a
+# registered battery runs the REAL function on fixed inputs against the contract's postcondition evaluated natively.
+# A failing input is a violation with a concrete replay; a passing battery decides nothing (the verdict stays UNDECIDED).
+BATTERIES: Dict[str, Callable[[], Dict[str, Any]]] = {}
+
+
+def battery(key: str):
+    def deco(f):
+        BATTERIES[key] = f
+        return f
+
+    return deco
+
+
+def run_script(script: str, expected: str) -> Dict[str, Any]:
+    """Run a native script against /repo's working tree; exit code 1 of the script = the postcondition failed."""
+    repo = os.environ.get("PYVC_REPO", "/repo")
+    p = subprocess.run([sys.executable, "-c", script], capture_output=True, text=True, cwd=repo, timeout=300,
+                       env={**os.environ, "PYTHONPATH": repo})
+    return {"reproduced": p.returncode == 1, "script": script, "cwd": repo, "expected": expected,
+            "observed": (p.stdout[-1500:] + p.stderr[-1500:]).strip(), "exit": p.returncode}
+
+
 def _py_of(model, z, depth: int = 0) -> Any:
     """Concretise a term of sort V under the model (best effort, for display and harness input)."""
     try:
